@@ -623,6 +623,8 @@ fn compare_bigint_int(big: &BigInt, i: i64) -> Ordering {
     compare_int_bigint(i, big).reverse()
 }
 
+// Digits are little-endian, so equal-length magnitudes are compared from the most
+// significant digit down.
 fn compare_bigint(a: &BigInt, b: &BigInt) -> Ordering {
     match (a.sign, b.sign) {
         (Sign::Positive, Sign::Negative) => Ordering::Greater,
@@ -631,12 +633,12 @@ fn compare_bigint(a: &BigInt, b: &BigInt) -> Ordering {
             .digits
             .len()
             .cmp(&b.digits.len())
-            .then_with(|| a.digits.cmp(&b.digits)),
+            .then_with(|| a.digits.iter().rev().cmp(b.digits.iter().rev())),
         (Sign::Negative, Sign::Negative) => a
             .digits
             .len()
             .cmp(&b.digits.len())
-            .then_with(|| a.digits.cmp(&b.digits))
+            .then_with(|| a.digits.iter().rev().cmp(b.digits.iter().rev()))
             .reverse(),
     }
 }
